@@ -828,6 +828,15 @@ FwdReferent(i) == \E y \in Symbols \cap Sub(S0, i) : pay[y] \in Referents /\ Lat
 FwdExpr(i) == \E v \in Intervals \cap Sub(S0, i) : \E kv \in symx[v] :
                  \/ Later(i, ExprSym[kv[2]], v)
                  \/ (KindOf(kv[2]) = "aa" /\ Later(i, Sym2Of(kv[2]), v))
+\* The writer alone: save does not change anything and may be called any number of times; whatever was done to the
+\* IR since the last save, the bytes are the message of the *current* state (no stale encodings: the harness
+\* saves every IR once when the universe is built, so each WriteMsg is a second save from the same objects).
+WriteMsg(i) ==
+  /\ On("writemsg")
+  /\ \A v \in Intervals \cap Sub(S0, i) : \A kv \in symx[v] :
+        ExprSym[kv[2]] # NONE /\ (KindOf(kv[2]) = "aa" => Sym2Of(kv[2]) # NONE)
+  /\ op' = [name |-> "writemsg", ir |-> i, msg |-> MsgOf(i), res |-> NONE]
+  /\ UNCHANGED absView
 ReadMsg(i) ==
   /\ On("readmsg") /\ RefClosed(i) /\ Closed(i) /\ scal[i]["version"] = "CUR"
   /\ op' = [name |-> "readmsg", ir |-> i, msg |-> MsgOf(i), res |-> NONE,
@@ -939,6 +948,7 @@ Next ==
   \/ G({"reload"}) /\ \E i \in IRs, w \in 1..ReloadWeight : Reload(i) \/ ReloadRefused(i)
   \/ G({"loadfault"}) /\ \E i \in IRs : LoadFault(i)
   \/ G({"readmsg"}) /\ \E i \in IRs : ReadMsg(i)
+  \/ G({"writemsg"}) /\ \E i \in IRs : WriteMsg(i)
 
 \* state constraints for "one perturbation, then ..." sweeps
 Depth2 == TLCGet("level") <= 2
